@@ -1146,6 +1146,7 @@ func runC10(r *Run) {
 	old := runtime.GOMAXPROCS(1) // one P: every pooled bank is visible to Pool.Get
 	defer runtime.GOMAXPROCS(old)
 	c10LargePointee(r)
+	c10FlatThenStrings(r)
 	nA, nB := r.N(220, 2500), r.N(160, 2000)
 	for i := 0; i < nA; i++ {
 		c10History(r)
@@ -1432,6 +1433,115 @@ func c10LargePointee(r *Run) {
 			for _, k := range keptRows {
 				k.bank.Close()
 			}
+		}
+	}
+}
+
+// c10FlatThenStrings: a history across two files.  First a file of flat records (no pointers,
+// no strings: nothing a bank would hold) whose callback closes every bank it is given - several
+// times over; then a file of records with strings and pointers, of which every third is kept
+// with its bank open and the others are closed in the callback.  Whatever the first read did
+// with the banks it handed out, the second read's kept records stay what they were when
+// delivered, and no two live records share memory.
+type c10Flat struct {
+	A int64   `json:"a"`
+	B float64 `json:"b"`
+	C bool    `json:"c"`
+}
+type c10Named struct {
+	ID   int64   `json:"id"`
+	Name string  `json:"name"`
+	Note *string `json:"note"`
+}
+
+func c10FlatThenStrings(r *Run) {
+	for _, codec := range codecNames {
+		var flat, named bytes.Buffer
+		ef, err := avro.NewEncoderFor[c10Flat](&flat, avro.Compression(codec), 50)
+		if err != nil {
+			r.Fail(-1, "call-failed", "NewEncoderFor[c10Flat]: "+err.Error(), nil)
+			return
+		}
+		for i := 0; i < 12; i++ {
+			v := c10Flat{A: int64(i), B: float64(i) / 2, C: i%2 == 0}
+			ef.Encode(&v)
+		}
+		ef.Flush()
+		en, err := avro.NewEncoderFor[c10Named](&named, avro.Compression(codec), 200)
+		if err != nil {
+			r.Fail(-1, "call-failed", "NewEncoderFor[c10Named]: "+err.Error(), nil)
+			return
+		}
+		const rows = 64
+		name := func(i int) string {
+			return fmt.Sprintf("name-of-record-%03d-%s", i, string(bytes.Repeat([]byte{'a' + byte(i%26)}, i%40)))
+		}
+		for i := 0; i < rows; i++ {
+			note := fmt.Sprintf("note-%d", i)
+			v := c10Named{ID: int64(i), Name: name(i)}
+			if i%2 == 0 {
+				v.Note = &note
+			}
+			en.Encode(&v)
+		}
+		en.Flush()
+		desc := map[string]any{"codec": codec, "history": "ReadFile(flat records, every bank closed in the callback) x2; ReadFile(records with strings: every third kept with its bank open, the others closed)"}
+		r.Count("B/flat-then-strings/" + codec)
+		bad := func() (bad string) {
+			defer func() {
+				if p := recover(); p != nil {
+					bad = fmt.Sprintf("panic: %v", p)
+				}
+			}()
+			for pass := 0; pass < 2; pass++ {
+				n := 0
+				err := avro.ReadFile(bytes.NewReader(flat.Bytes()), c10Flat{}, func(val unsafe.Pointer, rb *avro.ResourceBank) error {
+					if v := *(*c10Flat)(val); v.A != int64(n) || v.B != float64(n)/2 {
+						return fmt.Errorf("flat record %d decodes to %+v", n, v)
+					}
+					n++
+					rb.Close()
+					return nil
+				})
+				if err != nil || n != 12 {
+					return fmt.Sprintf("the file of flat records: %d of 12 records, %v", n, err)
+				}
+			}
+			type kept struct {
+				v    c10Named
+				bank *avro.ResourceBank
+			}
+			var keep []kept
+			n := 0
+			err := avro.ReadFile(bytes.NewReader(named.Bytes()), c10Named{}, func(val unsafe.Pointer, rb *avro.ResourceBank) error {
+				v := *(*c10Named)(val)
+				if v.ID != int64(n) || v.Name != name(n) || (v.Note != nil) != (n%2 == 0) {
+					return fmt.Errorf("record %d decodes to id %d name %q", n, v.ID, v.Name)
+				}
+				if n%3 == 0 {
+					keep = append(keep, kept{v, rb})
+				} else {
+					rb.Close()
+				}
+				n++
+				return nil
+			})
+			if err != nil || n != rows {
+				return fmt.Sprintf("the file of records with strings: %d of %d records, %v", n, rows, err)
+			}
+			for _, k := range keep {
+				i := int(k.v.ID)
+				if k.v.Name != name(i) || (k.v.Note != nil && *k.v.Note != fmt.Sprintf("note-%d", i)) {
+					return fmt.Sprintf("record %d was kept with its bank open; after the read its name reads %q, written %q", i, k.v.Name, name(i))
+				}
+			}
+			for _, k := range keep {
+				k.bank.Close()
+			}
+			return ""
+		}()
+		if bad != "" {
+			r.Fail(-1, "mutated-before-close", bad, desc)
 		}
 	}
 }
